@@ -429,6 +429,9 @@ def gen_request(ch, cfg):
     else:
         r.range_val, r.range_cls, r.range = gen_range(ch, n)
         r.ims_val, r.ims_epoch, r.ims_cls = gen_ims(ch, base)
+    # what the client accepts decides whether an error response (404, 416, 400) carries a document
+    r.accept = [None, None, None, 'text/html', 'image/png, text/css;q=0.5', 'application/xml;q=0.2'][
+        ch.draw(6, 'accept')]
     return r
 
 
@@ -541,6 +544,8 @@ def request_headers(req):
         h.append(('Range', req.range_val))
     if req.ims_val is not None:
         h.append(('If-Modified-Since', req.ims_val))
+    if getattr(req, 'accept', None) is not None:
+        h.append(('Accept', req.accept))
     return h
 
 
@@ -1030,7 +1035,7 @@ def _run(ctx, server_tz):
     v = cfg['view']
     show = TREE.show
     ctx.plan = {
-        'stack': stack, 'dir': v.rel, 'dir_spelling': cfg['dir_spelling'], 'prefix': cfg['prefix'],
+        'stack': stack, 'accept': getattr(req, 'accept', None), 'dir': v.rel, 'dir_spelling': cfg['dir_spelling'], 'prefix': cfg['prefix'],
         'downloadable': cfg['downloadable'], 'fallback': cfg['fb_kind'], 'strip_slash': cfg['strip'],
         'method': req.method, 'target': req.shown[:300], 'path_class': req.cls,
         'prefix_match': req.pm, 'range': req.range_val, 'range_class': req.range_cls,
